@@ -21,7 +21,7 @@ func NewKey(name string, expiration int64) *Key {
 
 // Encode encodes the key.
 func (k *Key) Encode() []byte {
-	var b = make([]byte, 8+len(k.Name))
+	var b = make([]byte, binary.MaxVarintLen64+len(k.Name))
 	n := binary.PutVarint(b, k.Expiration)
 	copy(b[n:], k.Name)
 	return b[:n+len(k.Name)]
